@@ -59,9 +59,9 @@ func field(l string, from, to int) string {
 func ReadGB(lines []string) (*GBRecord, error) {
 	rec := &GBRecord{}
 	type block struct {
-		key   string
-		sub   bool
-		data  []string
+		key  string
+		sub  bool
+		data []string
 	}
 	var blocks []*block
 	i := 0
